@@ -11,7 +11,7 @@ import itertools
 
 import z3
 
-from checks.c01 import DPCheck, trio
+from checks.c01 import DPCheck, trio, _chk
 
 PROPERTY = "C05"
 H = (0, 1)
@@ -21,7 +21,7 @@ def quartet(ncols, reads, genotypes, **kw):
     """individuals 0=father 1=mother 2=child1 3=child2"""
     d = dict(individuals=[0, 1, 2, 3], trios=[(0, 1, 2), (0, 1, 3)], ncols=ncols, reads=[dict(sample=s, cols=list(c)) for s, c in reads], genotypes=genotypes)
     d.update(kw)
-    return d
+    return _chk(d)
 
 
 def mendel_ok(gf, gm, gc):
@@ -44,7 +44,7 @@ class PedMendel(DPCheck):
             out.append(trio(2, [(2, (0,)), (0, (0,))], [[H, (0, 0)], [H, H], [H, H]], W=W, Rc=W, noreads_cols=[1]))
             out.append(trio(2, [(0, (0, 1)), (2, (0, 1))], [[H, H], [(0, 0), (1, 1)], [H, H]], W=W, Rc=W))
         else:
-            for reads in ([(2, (0, 1)), (2, (0, 1))], [(0, (0, 1)), (1, (0, 1)), (2, (0, 1))], [(0, (0, 1, 2)), (2, (0, 1, 2))], [(1, (0, 1)), (2, (1, 2)), (0, (0, 2))]):
+            for reads in ([(2, (0, 1)), (2, (0, 1))], [(0, (0, 1)), (1, (0, 1)), (2, (0, 1))], [(0, (0, 1, 2)), (2, (0, 1, 2))], [(1, (0, 1)), (0, (0, 2)), (2, (1, 2))]):
                 C = 1 + max(max(c) for s, c in reads)
                 out.append(trio(C, reads, allhet(C), W=W, Rc=W))
             for gf, gm, gc in itertools.product([(0, 0), H, (1, 1)], repeat=3):
